@@ -347,6 +347,18 @@ def opt_minlen(ctx):
                             newv = _sh(render(p.env.get(k, ("uninit", k))))
                             if m.group(1) == "" and newv != "uninit(%d)" % k:
                                 good, why = False, "under acc < m the accumulator is replaced by the larger value"
+                # the same accumulation written as `acc = acc.min(m)`
+                if good and n_upd == 0 and n_keep == 0 and len(accs) == 1:
+                    k = next(iter(accs))
+                    for p in ctx.walk(b, start_bb=h).paths:
+                        if p.end.startswith("loop"):
+                            newv = _sh(render(p.env.get(k, ("uninit", k))))
+                            mm_ = re.match(r"^Ord::min\((.*)\)$", newv)
+                            if mm_ and ("uninit(%d)" % k) in mm_.group(1) and "get_minimum_match_length(" in mm_.group(1):
+                                n_upd += 1
+                                n_keep += 1
+                            elif newv != "uninit(%d)" % k:
+                                good, why = False, "the accumulator becomes %s" % newv[:80]
                 if good and (n_upd == 0 or n_keep == 0 or len(accs) != 1):
                     good, why = False, "no min-accumulation (replace iff m < acc) recognised"
             out.append(ok(key) if good else bad(key, "Choice minimum length must be the minimum over its branches: %s" % why, b.loc()))
